@@ -54,8 +54,8 @@ def Blk.mayContainsYield (b : Blk) : Bool :=
   match b.items with
   | [] => false
   | (_, k) :: _ =>
-    if k = .yieldk || k = .fork || k = .combine then true
-    else b.items.any fun x => x.2 = .ifk || x.2 = .switchk
+    if k = .yieldk ∨ k = .fork ∨ k = .combine then true
+    else b.items.any fun x => decide (x.2 = .ifk ∨ x.2 = .switchk)
 
 def Blk.mustNoYield (b : Blk) : Bool := !b.mayContainsYield
 
@@ -64,14 +64,18 @@ def Blk.combineRequired (b : Blk) : Bool :=
   | [] => false
   | (_, k) :: _ => k ≠ .trivial
 
-def returnNormalRequired (q : Quirks) (b : Blk) : Except String Bool := do
-  if !(b.kind = .delay || b.kind = .fork || b.kind = .ifk ||
-        (b.kind = .switchk && !q.switchKindRejectedByReturnNormal)) then throw "illegal state"
-  match b.items with
-  | [] => pure true
-  | (last, k) :: _ =>
-    if k = .ifk || k = .switchk || k = .trivial then do pure (!(← isTerminating q last))
-    else pure false
+def returnNormalRequired (q : Quirks) (b : Blk) : Except String Bool :=
+  if ¬ (b.kind = .delay ∨ b.kind = .fork ∨ b.kind = .ifk ∨
+        (b.kind = .switchk ∧ q.switchKindRejectedByReturnNormal = false)) then .error "illegal state"
+  else
+    match b.items with
+    | [] => .ok true
+    | (last, k) :: _ =>
+      if k = .ifk ∨ k = .switchk ∨ k = .trivial then
+        match isTerminating q last with
+        | .ok t => .ok (!t)
+        | .error e => .error e
+      else .ok false
 
 /-- generateLastNormalIfNecessary -/
 def genLast (q : Quirks) (b : Blk) : Except String Blk := do
